@@ -1,3 +1,38 @@
 package drive
 
-func CmdSelftest(args []string) int { return 0 }
+import (
+	"fmt"
+	"os"
+
+	"verif/engine/interp"
+)
+
+// CmdSelftest loads /repo with the harness overlay, builds SSA and runs the
+// trivial harness and the serve-loop smoke harness through the solver: it
+// proves that the toolchain, the module cache and the solver are usable
+// offline before any check is run.
+func CmdSelftest(args []string) int {
+	ld, err := Load([]string{"fasthttp"}, "amd64")
+	if err != nil {
+		fmt.Fprintln(os.Stderr, "selftest: load:", err)
+		return 2
+	}
+	sp := ld.Pkgs["fasthttp"]
+	for _, h := range []string{"vhTrivial", "vhServeSmoke"} {
+		fn := sp.Func(h)
+		if fn == nil {
+			fmt.Fprintln(os.Stderr, "selftest: missing harness", h)
+			return 2
+		}
+		st, err := interp.Explore(ld.Prog, fn, interp.ExploreOpts{
+			Workers: 2, Solver: "z3-new", TimeoutMs: 10000, WordBits: ld.WordBits, InitPkg: sp,
+			Setup: func(it *interp.Interp) { it.InitAllow = DefaultInitAllow },
+		})
+		if err != nil || len(st.Violations) > 0 || len(st.Problems) > 0 || st.Discharged == 0 {
+			fmt.Fprintf(os.Stderr, "selftest: %s failed: err=%v violations=%d problems=%v discharged=%d\n", h, err, len(st.Violations), st.Problems, st.Discharged)
+			return 2
+		}
+	}
+	fmt.Println("selftest ok")
+	return 0
+}
